@@ -51,6 +51,9 @@ inductive Kind where
   | memWord    -- reg32.MemWord / MemUWord / MemSWord: software storage with byte strobes
   | register   -- reg32.Register with fields
   | range      -- reg32.AddrRange subclass of the harness (relative read / write hooks)
+  | output     -- reg32.Output: write-only, drives a (narrow) hardware signal at bits `memMask` of the word
+  | input      -- reg32.Input: read-only view of a (narrow) hardware signal at bits `hwMask` of the word
+  | memory     -- reg32.Memory (inline, MaskMode IMMEDIATE / SPLIT_WORDS): `count / 4` words with byte strobes
   deriving Repr, DecidableEq
 
 /-- one flattened register (global byte offset) -/
@@ -107,6 +110,7 @@ structure RegSt where
   fRrx : Bool := false
   fWtx : Bool := false
   fWrx : Bool := false
+  words : List Nat := []  -- content of a Memory
   deriving Repr, DecidableEq
 
 /-- hardware-side inputs of one register in one clock -/
@@ -117,7 +121,8 @@ structure Hw where
   nclrW : Bool := false
   deriving Repr, DecidableEq
 
-def Reg.init (r : Reg) : RegSt := { mem := r.dflt }
+def Reg.init (r : Reg) : RegSt :=
+  { mem := r.dflt, words := if r.kind = .memory then List.replicate (r.count / 4) 0 else [] }
 
 /-- the current content of the register word (`Word.raw`, `Register._to_bits_()`) -/
 def regValue (r : Reg) (s : RegSt) (h : Hw) : Nat :=
@@ -125,6 +130,9 @@ def regValue (r : Reg) (s : RegSt) (h : Hw) : Nat :=
   | .word => h.hw % 2 ^ 32
   | .memWord => s.mem
   | .range => s.mem
+  | .output => s.mem
+  | .input => h.hw &&& r.hwMask
+  | .memory => 0
   | .register => (s.mem &&& r.memMask) ||| (h.hw &&& r.hwMask) ||| ((s.tx ^^^ s.rx) &&& r.flagMask)
 
 /-- address relative to the range start (`addr - self._global_offset_` on `Unsigned[aw]`) -/
@@ -134,6 +142,7 @@ def relAddr (aw : Nat) (r : Reg) (addr : Nat) : Nat := (addr + 2 ^ aw - r.offset
 def readResult (aw : Nat) (r : Reg) (s : RegSt) (h : Hw) (addr : Nat) : Nat :=
   match r.kind with
   | .range => (r.tag + relAddr aw r addr) % 2 ^ 32
+  | .memory => s.words.getD (relAddr aw r addr / 4) 0
   | _ => regValue r s h
 
 /-- one clock of one register.  `rd` / `wr`: a read / write access that selects this register completes in
@@ -157,6 +166,11 @@ def regStep (fixed : Bool) (aw : Nat) (r : Reg) (s : RegSt) (h : Hw) (rd wr : Bo
   | .word => s1
   | .memWord => { s1 with mem := applyMask s.mem data m }
   | .range => { s1 with mem := applyMask s.mem data m, aux := relAddr aw r addr }
+  | .input => s1
+  | .output => { s1 with mem := applyMask s.mem data m &&& r.memMask }
+  | .memory =>
+      let w := relAddr aw r addr / 4
+      { s1 with words := s.words.set w (applyMask (s.words.getD w 0) data m) }
   | .register =>
       let merged := if fixed then applyMask (regValue r s h) data m else data % 2 ^ 32
       let st := merged &&& r.flagMask
@@ -305,7 +319,7 @@ def nextN (n : Nat) : P (List Nat) := do
   return out.toList
 
 def kindOf : Nat → Kind
-  | 0 => .word | 1 => .memWord | 2 => .register | _ => .range
+  | 0 => .word | 1 => .memWord | 2 => .register | 3 => .range | 4 => .output | 5 => .input | _ => .memory
 
 def pEntry : P Entry := do
   let k ← next
